@@ -13,13 +13,27 @@ from .c02 import corr_modules, lean_extra
 
 SIGS = ("window-conservation", "window-deadline", "partition-empty", "partition-oversize", "partition-mixed-keys",
         "partition-spurious-partial", "partition-late-full")
+CORPUS = [
+    # a None element is the first of its bucket (keep=first): it must stay the window's representative
+    {"mode": "async", "flavour": "future", "nodes": [{"kind": "source", "ups": []},
+                                                      {"kind": "timed_window_unique", "interval": 1, "key": ["bucketNone", 3], "keep": "first", "ups": [0]},
+                                                      {"kind": "sink", "mode": "sync", "f": ["id"], "ups": [1]}],
+     "ops": [{"op": "settle"}, {"op": "emit", "node": 0, "val": None, "md": [{"tag": 1, "ref": 1}]}, {"op": "emit", "node": 0, "val": 3, "md": [{"tag": 2, "ref": 2}]},
+             {"op": "emit", "node": 0, "val": 4, "md": [{"tag": 3, "ref": 3}]}, {"op": "emit", "node": 0, "val": 6, "md": [{"tag": 4, "ref": 4}]},
+             {"op": "advance", "dt": 1}, {"op": "emit", "node": 0, "val": 9, "md": []}, {"op": "emit", "node": 0, "val": None, "md": []}, {"op": "advance", "dt": 2}]},
+    {"mode": "async", "flavour": "future", "nodes": [{"kind": "source", "ups": []},
+                                                      {"kind": "timed_window_unique", "interval": 1, "key": ["bucketNone", 2], "keep": "last", "ups": [0]},
+                                                      {"kind": "sink", "mode": "sync", "f": ["id"], "ups": [1]}],
+     "ops": [{"op": "settle"}, {"op": "emit", "node": 0, "val": 2, "md": []}, {"op": "emit", "node": 0, "val": None, "md": []},
+             {"op": "emit", "node": 0, "val": 1, "md": []}, {"op": "advance", "dt": 2}]},
+]
 KINDS = ["timed_window", "timed_window_unique", "partition_timeout", "timed_window", "partition_timeout", "buffer", "rate_limit"]
 
 
 def run(ctx):
     ctx.audit(extra_modules=lean_extra("C08"))
     n = 200 if not ctx.thorough() else 6000
-    A.sweep(ctx, n, KINDS, ["windows"], SIGS, allow_zip=False)
+    A.sweep(ctx, n, KINDS, ["windows"], SIGS, allow_zip=False, corpus=CORPUS)
     for m in corr_modules():
         if m.__name__.endswith("asyncwindows"):
             m.run(ctx, "C08", 60 if not ctx.thorough() else 2500)
